@@ -48,10 +48,14 @@ func c19Tree(seed uint64, name string) *lib.Build {
 		b.PutFile("a-big0.bin", rb(r.Range(1*lib.MB, 3*lib.MB)))
 		b.PutFile("m/big1.bin", rb(r.Range(1*lib.MB, 2*lib.MB)))
 		b.PutFile("z-big2.bin", rb(1*lib.MB))
+		b.PutFile("m/big1.bin.tmp", rb(r.Range(10, 5000))) // a real entry named like a temporary file of its sibling
+		b.PutFile("m/t000.tmp", rb(77))
 		b.PutSymlink("m/lnk", "t001")
 	case "small":
 		b.PutFile("a.bin", rb(3000))
 		b.PutFile("b/c.bin", rb(70000))
+		b.PutFile("b/c.bin.tmp", rb(900))
+		b.PutFile("b/c.bin.part", rb(50))
 		b.PutFile("b/empty", nil)
 		b.PutDir("e")
 		b.PutSymlink("s", "a.bin")
